@@ -3,8 +3,6 @@ package files
 import (
 	"os"
 	"strings"
-
-	"github.com/jmeaster30/vore/libvore/algo"
 )
 
 type PathEntryType int
@@ -51,35 +49,30 @@ func ParsePath(path string) *Path {
 }
 
 func pathMatches(target string, matches string) bool {
-	if !strings.ContainsRune(matches, '*') {
-		return target == matches
-	}
-
-	matchParts := algo.Window(algo.SplitKeep(matches, "*"), 2)
-
-	result := true
-	for _, part := range matchParts {
-		if len(part) == 1 {
-			if part[0] != "*" && target != part[0] {
-				result = false
-			}
-			break
-		} else if part[0] == "*" {
-			splitStart := strings.Index(target, part[1])
-			if splitStart == -1 {
-				target = ""
-			} else {
-				target = target[splitStart:]
-			}
-		} else if strings.HasPrefix(target, part[0]) {
-			target = strings.TrimPrefix(target, part[0])
-			// FIXME doesn't account for relative folders ie `./docs/examples`
+	// '*' stands for any run of characters (also none) within the segment; on a mismatch
+	// the most recent '*' is retried one character further
+	t, m := 0, 0
+	star, mark := -1, 0
+	for t < len(target) {
+		if m < len(matches) && matches[m] == '*' {
+			star = m
+			mark = t
+			m++
+		} else if m < len(matches) && matches[m] == target[t] {
+			m++
+			t++
+		} else if star != -1 {
+			m = star + 1
+			mark++
+			t = mark
 		} else {
-			result = false
-			break
+			return false
 		}
 	}
-	return result
+	for m < len(matches) && matches[m] == '*' {
+		m++
+	}
+	return m == len(matches)
 }
 
 func directoryExists(entries []os.DirEntry, name string) bool {
